@@ -7,7 +7,7 @@ import impl, gen, oracle, evalutil as E
 from impl import quiet, PanopticaResult, Metric, MetricMode
 from common import rval_to_py, same_value, close
 
-RULE = ("object-based label-map pairs x input type {MATCHED, UNMATCHED} x matcher {threshold, threshold+many-to-one, merge} "
+RULE = ("metric-selection variants (a metric named twice, centre-line Dice among the metrics in 3-D incl. pairs with a 0/0 centre-line Dice: every requested list has exactly tp entries, counts unchanged); object-based label-map pairs x input type {MATCHED, UNMATCHED} x matcher {threshold, threshold+many-to-one, merge} "
         "x matching metric/threshold x decision metric {none, IOU, DSC, ASSD} x decision threshold (grid + exact hits); "
         "plus directly constructed results over (num_ref, num_pred, tp, value lists) incl. inconsistent ones; "
         "non-trivial = tp >= 1 with at least one instance on each side of a decision threshold, or a direct "
@@ -228,8 +228,53 @@ def grouped_cases(ctx, n):
                 break
 
 
+def corner_cubes(rng):
+    """3-D matched pair in which one instance's prediction and reference are cubes sharing a single corner voxel:
+    neither touches the other's centre line, so centre-line Dice is 0/0 for a pair that still counts as a true
+    positive under a low IoU decision threshold"""
+    n = rng.randint(12, 16)
+    ref = np.zeros((n, n, n), np.uint8)
+    pred = np.zeros((n, n, n), np.uint8)
+    ref[1:4, 1:4, 1:4] = 1
+    pred[3:6, 3:6, 3:6] = 1
+    a = rng.randint(7, n - 4)
+    ref[a:a + 3, a:a + 3, 1:4] = 2
+    pred[a:a + 3, a:a + 3, 1:4 + rng.choice([0, 1])] = 2
+    return pred, ref
+
+
+def selection_cases(ctx, n):
+    """every requested metric gets exactly tp list entries — also when a metric is named twice, when centre-line
+    Dice is among them (3-D) and when a value is NaN; tp/fp/fn do not depend on the metric list"""
+    rng = ctx.rng
+    for i in range(n):
+        if rng.random() < 0.3:
+            pred, ref = corner_cubes(rng)
+            it, three_d = "MATCHED", True
+            ctx.count("cldsc_nan_candidate")
+        else:
+            three_d = rng.random() < 0.5
+            pred, ref = gen.pair(rng, ndim=3 if three_d else rng.choice([1, 2]), hi=7, max_obj=4, allow_empty=False)
+            it = rng.choice(["MATCHED", "UNMATCHED"])
+        base = rng.sample(["IOU", "DSC", "RVD", "ASSD"], rng.randint(2, 4))
+        if "IOU" not in base:
+            base.append("IOU")
+        dec = ["IOU", {"q": list(rng.choice([(1, 100), (1, 10), (1, 2)]))}] if rng.random() < 0.6 else None
+        cfg = E.mk_cfg(it, base, matcher=None if it == "MATCHED" else E.naive("IOU", rng.choice([(1, 10), (1, 2)])), decision=dec)
+        variants = E.selection_variants(rng, base, allow_cldsc=three_d)
+        inp = {"shape": list(pred.shape), "dtype": str(pred.dtype), "pred": gen.arr_json(pred), "ref": gen.arr_json(ref), "cfg": cfg,
+               "variants": variants, "src": f"selection{i}"}
+        inv, book, ran = E.selection_failures(cfg, pred, ref, variants)
+        ctx.case(inp, ran > 0)
+        ctx.count("metric_selection_variants", ran)
+        inv = [f for f in inv if any(k in f for k in (".tp =", ".fp =", ".fn =", ".rq =", "num_"))]
+        if book or inv:
+            ctx.violation("C02 violated: " + (book + inv)[0], inp, impl=(book + inv)[:5], key={"kind": "metric-selection"})
+
+
 def run(ctx):
     corpus(ctx)
+    selection_cases(ctx, ctx.scale(40, 400))
     grouped_cases(ctx, ctx.scale(10, 80))
     rng = ctx.rng
     for i in range(ctx.scale(700, 7000)):
@@ -255,6 +300,15 @@ def search(ctx):
 
 def replay(ctx, rec):
     i = rec["input"]
+    if "variants" in i:
+        dt = np.dtype(i["dtype"])
+        inv, book, ran = E.selection_failures(i["cfg"], np.array(i["pred"], dtype=dt).reshape(i["shape"]),
+                                              np.array(i["ref"], dtype=dt).reshape(i["shape"]), i["variants"])
+        ctx.case(i, True)
+        inv = [f for f in inv if any(k in f for k in (".tp =", ".fp =", ".fn =", ".rq =", "num_"))]
+        if book or inv:
+            ctx.violation("C02 violated: " + (book + inv)[0], i, impl=(book + inv)[:5], key={"kind": "metric-selection"})
+        return
     if "cfg" in i:
         dt = np.dtype(i.get("dtype", "uint8"))
         pipeline_case(ctx, np.array(i["pred"], dtype=dt).reshape(i["shape"]), np.array(i["ref"], dtype=dt).reshape(i["shape"]), i["cfg"], "replay")
